@@ -2,6 +2,7 @@
   Every value the DER readers read is read by the BER readers as the same value: the relaxed mode only admits more.
 -/
 import Rpki.Proofs.BerLeaf
+import Rpki.Gen.BerModel
 namespace Rpki
 open Rpki.Der Rpki.CertDer
 
@@ -193,5 +194,234 @@ theorem bitStringTake_mono (c : Bytes) (x : Nat × Bytes) (h : Manifest.bitStrin
     all_goals first
       | (cases h; done)
       | (simp_all; done)
+
+/-! ### the same facts as equalities under "the DER reader did not refuse" — the form `simp` can rewrite with -/
+
+theorem readTlv_monoEq (b : Bytes) (h : (readTlv b).isSome) : readTlvM true b = readTlv b := by
+  cases hr : readTlv b with
+  | none => simp [hr] at h
+  | some x => exact readTlv_mono b x hr
+
+theorem takeOptCons_monoEq (tag : Nat) (b : Bytes) (h : takeOptCons tag b ≠ .bad) :
+    takeOptConsM true tag b = takeOptCons tag b := by
+  cases hp : takeOptCons tag b with
+  | absent => exact takeOptCons_absent_mono tag b hp
+  | bad => exact absurd hp h
+  | ok c r => exact takeOptCons_mono tag b c r hp
+
+theorem takeOptPrim_monoEq (tag : Nat) (b : Bytes) (h : takeOptPrim tag b ≠ .bad) :
+    takeOptPrimM true tag b = takeOptPrim tag b := by
+  cases hp : takeOptPrim tag b with
+  | absent => exact takeOptPrim_absent_mono tag b hp
+  | bad => exact absurd hp h
+  | ok c r => exact takeOptPrim_mono tag b c r hp
+
+theorem takePrim_monoEq (tag : Nat) (b : Bytes) (h : (takePrim tag b).isSome) : takePrimM true tag b = takePrim tag b := by
+  unfold takePrim at h ⊢
+  unfold takePrimM
+  cases hp : takeOptPrim tag b with
+  | absent => simp [hp] at h
+  | bad => simp [hp] at h
+  | ok c r => rw [takeOptPrim_mono _ _ _ _ hp]
+
+theorem takeCons_monoEq (tag : Nat) (b : Bytes) (h : (takeCons tag b).isSome) : takeConsM true tag b = takeCons tag b := by
+  unfold takeCons at h ⊢
+  unfold takeConsM
+  cases hp : takeOptCons tag b with
+  | absent => simp [hp] at h
+  | bad => simp [hp] at h
+  | ok c r => rw [takeOptCons_mono _ _ _ _ hp]
+
+/-- with the flag: a value the DER reader reads has definite length -/
+theorem takeOptConsIM_monoEq (tag : Nat) (b : Bytes) (h : takeOptCons tag b ≠ .bad) :
+    takeOptConsIM true tag b =
+      (match takeOptCons tag b with | .absent => .absent | .bad => .bad | .ok c rest => .ok (c, false) rest) := by
+  have hm := takeOptCons_monoEq tag b h
+  unfold takeOptConsM at hm
+  cases hp : takeOptCons tag b with
+  | bad => exact absurd hp h
+  | absent =>
+    rw [hp] at hm
+    cases hi : takeOptConsIM true tag b with
+    | absent => rfl
+    | bad => rw [hi] at hm; cases hm
+    | ok q r => obtain ⟨c, i⟩ := q; rw [hi] at hm; cases hm
+  | ok c r =>
+    rw [hp] at hm
+    cases hi : takeOptConsIM true tag b with
+    | absent => rw [hi] at hm; cases hm
+    | bad => rw [hi] at hm; cases hm
+    | ok q r' =>
+      obtain ⟨c', i⟩ := q
+      rw [hi] at hm
+      simp only [Take.ok.injEq] at hm
+      obtain ⟨rfl, rfl⟩ := hm
+      -- the flag: the DER reader accepted, so the length octets were not 0x80
+      have hf : i = false := by
+        unfold takeOptConsIM at hi
+        unfold takeOptCons at hp
+        cases b with
+        | nil => cases hp
+        | cons t r0 =>
+          simp only at hi hp
+          repeat' split at hp
+          all_goals first
+            | (cases hp; done)
+            | skip
+          rename_i hr
+          have hri := readTlvIM_false (t :: r0)
+          -- `readTlvIM true` on a value `readTlv` reads: definite
+          unfold readTlv at hr
+          simp only at hr
+          split at hr
+          · cases hr
+          · cases hl : readLen r0 with
+            | none => simp [hl] at hr
+            | some p =>
+              obtain ⟨l, r1⟩ := p
+              have hx : readLenX r0 = some (.definite l, r1) := by
+                unfold readLenX
+                split
+                · rename_i r9; rw [readLen_indef] at hl; cases hl
+                · rw [hl]; rfl
+              simp only [readTlvIM, readLenX_mono r0 _ hx] at hi
+              repeat' split at hi
+              all_goals first
+                | (cases hi; done)
+                | skip
+              all_goals simp_all
+      subst hf
+      rfl
+
+theorem takeOptBool_monoEq (b : Bytes) (h : takeOptBool b ≠ .bad) : takeOptBoolM true b = takeOptBool b := by
+  cases hp : takeOptBool b with
+  | bad => exact absurd hp h
+  | ok x r => exact takeOptBool_mono b x r hp
+  | absent =>
+    unfold takeOptBool at hp
+    unfold takeOptBoolM
+    cases hq : takeOptPrim tagBool b with
+    | absent => rw [takeOptPrim_absent_mono _ _ hq]
+    | bad => simp [hq] at hp
+    | ok c r =>
+      simp only [hq] at hp
+      repeat' split at hp
+      all_goals cases hp
+
+theorem skipOne_monoEq (b : Bytes) (h : (skipOne b).isSome) : skipOneM true b = skipOne b := by
+  cases hs : skipOne b with
+  | none => simp [hs] at h
+  | some r => exact skipOne_mono b r hs
+
+theorem skipAll_monoEq : ∀ (fuel : Nat) (b : Bytes), skipAll fuel b = true → skipAllM true fuel b = true := by
+  intro fuel
+  induction fuel with
+  | zero => intro b h; simpa [skipAll, skipAllM] using h
+  | succ n ih =>
+    intro b h
+    simp only [skipAll] at h
+    simp only [skipAllM]
+    split at h
+    · simp_all
+    · rename_i hb
+      simp only [hb, if_false]
+      cases hs : skipOne b with
+      | none => simp [hs] at h
+      | some r =>
+        simp only [hs] at h
+        rw [skipOne_mono b r hs]
+        exact ih r h
+
+theorem bitStringTake_monoEq (c : Bytes) (h : (Manifest.bitStringTake c).isSome) :
+    Manifest.bitStringTakeM true c = Manifest.bitStringTake c := by
+  cases hb : Manifest.bitStringTake c with
+  | none => simp [hb] at h
+  | some x => exact bitStringTake_mono c x hb
+
+/-- the generic loops: monotone when the item function is -/
+theorem foldCons_monoEq {σ : Type} (tag : Nat) (f fM : σ → Bytes → Option σ)
+    (hf : ∀ s c, (f s c).isSome → fM s c = f s c) :
+    ∀ (fuel : Nat) (b : Bytes) (s : σ), (foldCons tag f fuel b s).isSome →
+      foldConsM true tag fM fuel b s = foldCons tag f fuel b s := by
+  intro fuel
+  induction fuel with
+  | zero => intro b s _; rfl
+  | succ n ih =>
+    intro b s h
+    simp only [foldCons] at h ⊢
+    simp only [foldConsM]
+    cases hp : takeOptCons tag b with
+    | bad => simp [hp] at h
+    | absent => rw [takeOptCons_absent_mono _ _ hp]
+    | ok c rest =>
+      rw [takeOptCons_mono _ _ _ _ hp]
+      simp only [hp] at h ⊢
+      cases hfc : f s c with
+      | none => simp [hfc] at h
+      | some s' =>
+        rw [hf s c (by simp [hfc]), hfc]
+        simp only [hfc] at h
+        exact ih rest s' h
+
+theorem foldPrim_monoEq {σ : Type} (tag : Nat) (f : σ → Bytes → Option σ) :
+    ∀ (fuel : Nat) (b : Bytes) (s : σ), (foldPrim tag f fuel b s).isSome →
+      foldPrimM true tag f fuel b s = foldPrim tag f fuel b s := by
+  intro fuel
+  induction fuel with
+  | zero => intro b s _; rfl
+  | succ n ih =>
+    intro b s h
+    simp only [foldPrim] at h ⊢
+    simp only [foldPrimM]
+    cases hp : takeOptPrim tag b with
+    | bad => simp [hp] at h
+    | absent => rw [takeOptPrim_absent_mono _ _ hp]
+    | ok c rest =>
+      rw [takeOptPrim_mono _ _ _ _ hp]
+      simp only [hp] at h ⊢
+      cases hfc : f s c with
+      | none => simp [hfc] at h
+      | some s' =>
+        simp only [hfc] at h ⊢
+        exact ih rest s' h
+
+theorem capturePass_monoEq {α : Type} (take takeM : Bytes → Take α) (check : α → Bool)
+    (ht : ∀ b, take b ≠ .bad → takeM b = take b) :
+    ∀ (fuel : Nat) (b : Bytes) (n : Nat), (capturePass take check fuel b n).isSome →
+      capturePass takeM check fuel b n = capturePass take check fuel b n := by
+  intro fuel
+  induction fuel with
+  | zero => intro b n _; rfl
+  | succ k ih =>
+    intro b n h
+    simp only [capturePass] at h ⊢
+    cases hp : take b with
+    | bad => simp [hp] at h
+    | absent => rw [ht b (by simp [hp]), hp]
+    | ok a rest =>
+      rw [ht b (by simp [hp]), hp]
+      simp only [hp] at h ⊢
+      split
+      · rename_i hc; simp only [hc, if_true] at h; exact ih rest (n + 1) h
+      · rfl
+
+theorem iteratePass_monoEq {α : Type} (take takeM : Bytes → Take α)
+    (ht : ∀ b, take b ≠ .bad → takeM b = take b) :
+    ∀ (fuel : Nat) (b : Bytes), (iteratePass take fuel b).isSome → iteratePass takeM fuel b = iteratePass take fuel b := by
+  intro fuel
+  induction fuel with
+  | zero => intro b _; rfl
+  | succ k ih =>
+    intro b h
+    simp only [iteratePass] at h ⊢
+    cases hp : take b with
+    | bad => simp [hp] at h
+    | absent => rw [ht b (by simp [hp]), hp]
+    | ok a rest =>
+      rw [ht b (by simp [hp]), hp]
+      simp only [hp] at h ⊢
+      cases hi : iteratePass take k rest with
+      | none => simp [hi] at h
+      | some l => rw [ih rest (by simp [hi]), hi]
 
 end Rpki
